@@ -2,7 +2,7 @@
 # verify_seed.sh <seed-dir>: confirm a seeded change in a scratch worktree of /repo HEAD:
 #  (1) applies, (2) full suite passes with it, (3) demo fails with it, (4) demo passes without it
 D="$1"; NAME=$(basename "$D")
-WT=/tmp/wt-verify
+WT=${WT:-/tmp/wt-verify}
 [ -d $WT ] || git -C /repo worktree add -q --detach $WT HEAD
 cd $WT && git reset -q --hard && git checkout -q --detach $(git -C /repo rev-parse HEAD) && git clean -fdq -e target
 if ! git apply --check "$D/patch.diff" 2>/dev/null; then
